@@ -1,6 +1,8 @@
 import GenK.UCall
 import TieB.BruteProofs
 import DsProofs.Properties.C15
+import DsProofs.Properties.C14
+import Mathlib.Order.Basic
 /-!
 # TIEK — the failure handler of `SklearnModelUtility.__call__` AS IT IS WRITTEN NOW
 (`GenK/UCall.lean`, regenerated from `/repo/datascope/importance/utility.py` on every run by `harness/translate_ucall.py`; the accuracy and ROC-AUC utilities inherit it)
@@ -11,6 +13,7 @@ category followed by the value).  Read from the source: the classes of the two `
 * `TIEK_supplied`: with a supplied null score the call returns the computed score, returns the null score when the evaluation raises `ValueError` or a
   `RuntimeWarning` (raised, or emitted — the utility escalates that category itself), and lets every other class propagate.
 * `TIEK_layer1`: that is the model's `Outcome.layer1` (what `C15_layer1` / `C15_handled` / `C15_escape` are about).
+* `TIEK_null_score`: `SklearnModelUtility.null_score` (template) with the accuracy metric is the model's `accNull`.
 * `TIEK_total`: whenever neither the evaluation nor the fallback raises a class outside `{ValueError, RuntimeWarning}` the call RETURNS a score — supplied null score or
   not (C15: "never raises"); `TIEK_fallback`: without a supplied null score a failed evaluation scores the utility's own null score, and the default score 0 when that
   fails too (the inner guard — dropped by seed C15f — is part of the generated term).
@@ -136,6 +139,22 @@ theorem TIEK_fallback (own : Np.Out ℚ) (y : ℚ) :
     GenK.utility_call (.warn "RuntimeWarning" 7) (.exc "ValueError") none = .ok 0 ∧
     GenK.utility_call (.exc "KeyError") own none = .error "KeyError" := by
   refine ⟨rfl, rfl, rfl, rfl⟩
+
+/-- `SklearnModelUtility.null_score` as written, with the accuracy metric: the model's `accNull` — the lowest accuracy of a constant training-class prediction
+(`C14_acc_null_min`), `none` (ValueError from `min([])`) when there is no training class -/
+theorem TIEK_null_score (classes yTest : List Int) :
+    GenK.null_score (fun yt yp => Util.accuracy yt yp) classes yTest = Util.accNull classes yTest := by
+  unfold GenK.null_score Util.accNull Np.minOpt Np.fullLike
+  cases h : classes.map (fun x => Util.accuracy yTest (yTest.map (fun _ => x))) with
+  | nil => simp
+  | cons s ss =>
+    congr 1
+    have : (fun (m x : ℚ) => if x < m then x else m) = (fun m x => min m x) := by
+      funext m x
+      rcases lt_or_ge x m with hx | hx
+      · simp [hx, min_eq_right (le_of_lt hx)]
+      · simp [not_lt.mpr hx, min_eq_left hx]
+    rw [this]
 
 /-! ### non-vacuity -/
 example : GenK.utility_call (.val (3 : ℚ)) (.exc "ValueError") (some 5) = .ok 3 := rfl
